@@ -213,6 +213,10 @@ func scaleCheck(c *fw.Ctx, f *scaleFam, n int) *fw.Violation {
 		}
 		return d
 	}
+	if o.Truncated {
+		c.Incompl(fmt.Sprintf("scale family %q, n = %d: the output exceeds what the driver captures", f.Name, n))
+		return nil
+	}
 	if v := expect(s, o, sc.Want, kind, ""); v != nil {
 		d := clipSpec()
 		o.Ev, o.Stdout = nil, clip(o.Stdout)
@@ -446,6 +450,10 @@ func scaleRepeatDeep(c *fw.Ctx, f *scaleFam, n int, sc scaleCase) *fw.Violation 
 		o := run(c, s)
 		c.Traces++
 		c.Transitions += o.Steps
+		if o.Truncated {
+			c.Incompl(fmt.Sprintf("scale family %q, n = %d, the body run %d times: the output exceeds what the driver captures", f.Name, n, k))
+			return nil
+		}
 		if v := expect(s, o, strings.Repeat(sc.Want, k), drive.KNone, ""); v != nil {
 			o.Ev, o.Stdout = nil, clip(o.Stdout)
 			return &fw.Violation{What: fmt.Sprintf("%s, n = %d, the body run %d times, %d frames deep: %s", f.Name, n, k, d, strings.Replace(v.What, "the model", "the closed form", 1)),
